@@ -23,7 +23,7 @@ type listCase struct {
 
 // C11 GCS: listing is complete, duplicate-free, ordered for any prefix/delimiter/page.
 func checkC11(c *Ctx) {
-	c.rule = "cases = list requests (bucket contents, prefix, delimiter, maxResults) followed through all pages: the universe of MC_GcsList (every subset of 7 names with nested directories and names sorting below '/', x 5 prefixes x 4 delimiters incl. multi-character x page sizes 1..4) printed by TLC (sampled in the quick tier, complete in the thorough tier) plus seeded random larger name sets; executed over HTTP on both stores (file store: the subsets representable as files); the whole pagination is judged by GcsList.Accept, item metadata against the model state; distinct = distinct (names, prefix, delimiter, maxResults); non-trivial = the bucket holds at least one object"
+	c.rule = "cases = list requests (bucket contents, prefix, delimiter, maxResults) followed through all pages: the universe of MC_GcsList (every subset of 7 names with nested directories and names sorting below '/', x 5 prefixes x 4 delimiters incl. multi-character x page sizes 1..4) printed by TLC (sampled in the quick tier, complete in the thorough tier) plus seeded random larger name sets and fixed sets with deep nesting, long names and sibling directories / files whose names differ by a byte below or above the separator; executed over HTTP on both stores (file store: the subsets representable as files); the whole pagination is judged by GcsList.Accept, item metadata against the model state; distinct = distinct (names, prefix, delimiter, maxResults); non-trivial = the bucket holds at least one object"
 	r := rand.New(rand.NewSource(c.Seed))
 	sk := "3"
 	if !c.Quick() {
